@@ -31,7 +31,7 @@ import socket as _socket
 from typing import Any, Generator
 
 from easynetwork.exceptions import DatagramProtocolParseError
-from easynetwork.serializers.abc import AbstractIncrementalPacketSerializer
+from easynetwork.serializers.abc import AbstractIncrementalPacketSerializer, AbstractPacketSerializer
 
 from vsim.harness import CallFaults, draw_rate, swarm_selector, sync_engine
 from vsim.runner import Harness
@@ -134,6 +134,28 @@ _ENTRIES = list(_ENTRIES) + [
     _Entry(name="local/lenprefix-default-oneshot", family="local-default", make=lambda limit=None, hostile=False: LenPrefixed(), gen=_gen_lenprefixed, domain="bytes of length 0..300"),
 ]
 
+class RawBytes(AbstractPacketSerializer[bytes, bytes]):
+    """identity: the cheapest possible serializer, used for the "jumbo" size class (payloads at the limit of UDP)"""
+
+    __slots__ = ()
+
+    def serialize(self, packet: bytes) -> bytes:
+        return bytes(packet)
+
+    def deserialize(self, data: bytes) -> bytes:
+        return bytes(data)
+
+
+# UDP payload limits: 65507 bytes over IPv4 (65535 - 8 - 20), 65527 over IPv6 (65535 - 8; the IPv6 header is not counted)
+JUMBO_SIZES = (65500, 65506, 65507, 65508, 65520, 65527)
+
+
+def _gen_jumbo(rng, size: str = "small", mode: str = "oneshot") -> bytes:
+    return rng.randbytes(rng.choice(JUMBO_SIZES))
+
+
+_JUMBO_ENTRY = _Entry(name="local/raw-bytes-jumbo", family="local-raw", make=lambda limit=None, hostile=False: RawBytes(), gen=_gen_jumbo, domain="bytes of 65500..65527 bytes (IPv6 socket)")
+
 _FAMILIES: dict[str, list] = {}
 for _e in _ENTRIES:
     _FAMILIES.setdefault(_e.family, []).append(_e)
@@ -150,7 +172,8 @@ RULE = (
     "bit-flipped, empty, two-valid-concatenated, garbage} sent by a remote socket through SimNet with swarm-chosen loss / "
     "duplication / per-datagram delays (reordering) or injected directly; recv calls with timeouts {0, k/64, None}, slow receiver "
     "so that bursts queue up; in a quarter-to-half of the runs 1-3 pending socket errors (ECONNREFUSED) interleaved with the queued "
-    "datagrams (scenarios without sends); EAGAIN/EINTR on sendto/recvfrom; selector hold/reorder/spurious readiness. Packet domain = the "
+    "datagrams (asyncio: scenarios without sends; blocking: a send may report the error, a send that returns normally must have "
+    "produced its datagram); 1 run in 16 uses the jumbo size class (identity serializer, 65500..65527-byte payloads, AF_INET6); EAGAIN/EINTR on sendto/recvfrom; selector hold/reorder/spurious readiness. Packet domain = the "
     "entry's one-shot domain ('' is a valid line packet in one-shot mode; on asyncio endpoints it is generated only when "
     "world.avoid_known is False: D10). Non-trivial run = >=1 fault kind fired and >=1 packet sent or received."
 )
@@ -225,6 +248,12 @@ class Scenario:
         self.variant = variant
         fam = world.pick("family", _FAMILY_PICK)
         self.entry = world.pick("entry", _FAMILIES[fam])
+        # "jumbo" size class (rare, it costs ~65 KB per datagram): payloads around the largest UDP payloads, 65507 bytes over IPv4 and
+        # 65527 over IPv6, on an AF_INET6 socket; a receive buffer smaller than that silently cuts the datagram
+        self.jumbo = world.choose("jumbo", 16) == 15
+        if self.jumbo:
+            self.entry = _JUMBO_ENTRY
+            world.probe("jumbo-datagrams")
         self.family = self.entry.family
         rng = world.sub_rng("packets")
         entry = self.entry
@@ -236,7 +265,7 @@ class Scenario:
 
         # ---- outgoing packets
         self.sends: list[tuple[Any, bytes]] = []
-        for _ in range(world.choose("n_out", 6)):
+        for _ in range(world.choose("n_out", 3 if self.jumbo else 6)):
             for _try in range(30):
                 p, d = valid()
                 if d or not avoid_empty:
@@ -250,8 +279,10 @@ class Scenario:
         # ---- incoming script
         self.script: list[dict] = []
         t = 0
-        for i in range(1 + world.choose("n_in", 7)):
+        for i in range(1 + world.choose("n_in", 3 if self.jumbo else 7)):
             kind = KINDS[world.choose("kind", len(KINDS))]
+            if self.jumbo and kind not in ("valid", "empty", "truncated"):
+                kind = "valid"  # nothing is malformed for the identity serializer; keep the sizes at the limit
             p, d = valid()
             must_err = False
             if kind == "truncated":
@@ -295,12 +326,15 @@ class Scenario:
         self.t_end = t / 64.0
 
         # ---- pending socket errors (ICMP "port unreachable" on the connected socket => ECONNREFUSED reported by the next socket
-        # call, queued datagrams stay queued) interleaved with the datagrams.  Only in scenarios without send_packet calls: a
-        # pending error legitimately makes a send fail, which is not what this property is about.
+        # call, queued datagrams stay queued) interleaved with the datagrams.  Blocking engine: send_packet calls are kept — a send
+        # that meets the pending error may raise it (the kernel transmits nothing then), but a send_packet that RETURNS NORMALLY must
+        # still have produced exactly one datagram.  asyncio engine: no sends in these scenarios (asyncio's datagram transport hands a
+        # send error to error_received() and the datagram is gone by design of that transport; not this library's claim).
         self.errors: list[float] = []
         nerr = (0, 0, 1, 3)[world.choose("sockerr", 4)]
         if nerr:
-            self.sends = []
+            if engine == "aio":
+                self.sends = []
             for _ in range(nerr):
                 j = world.choose("err_after", len(self.script))
                 self.errors.append(self.script[j]["t"] + (0, 0, 1, 3)[world.choose("err_lag", 4)] / 64.0)
@@ -317,10 +351,12 @@ class Scenario:
 
         # ---- the network
         self.net = net = SimNet(world)
-        self.lib = SimSocket(net, _socket.AF_INET, _socket.SOCK_DGRAM, 0, "lib")
-        self.peer = SimSocket(net, _socket.AF_INET, _socket.SOCK_DGRAM, 0, "peer")
-        net.bind(self.lib, ("127.0.0.1", 0))
-        net.bind(self.peer, ("127.0.0.1", 0))
+        fam_ = _socket.AF_INET6 if self.jumbo else _socket.AF_INET
+        host = "::1" if self.jumbo else "127.0.0.1"
+        self.lib = SimSocket(net, fam_, _socket.SOCK_DGRAM, 0, "lib")
+        self.peer = SimSocket(net, fam_, _socket.SOCK_DGRAM, 0, "peer")
+        net.bind(self.lib, (host, 0))
+        net.bind(self.peer, (host, 0))
         self.lib.connect(self.peer.getsockname())
         self.pending = 0  # deliveries scheduled and not yet executed
         self.max_delay = 0.0
@@ -553,8 +589,19 @@ def _h_sync(world: World, variant: str) -> None:
                 if op[0] == "send":
                     p, d = sc.sends[op[1]]
                     before = len(sc.lib.sent_log)
+                    if sc.errors and sc.tx_gap:
+                        _vsleep(world, sc.tx_gap)  # lets a scheduled socket error become pending right before this send
+                    before = len(sc.lib.sent_log)
                     world.log("call", "send", len(d))
-                    ep.send_packet(p, timeout=(None, 1.0, 0.25)[world.choose("send_timeout", 3)])
+                    try:
+                        ep.send_packet(p, timeout=(None, 1.0, 0.25)[world.choose("send_timeout", 3)])
+                    except OSError as exc:
+                        if not (sc.errors and exc.errno == errno.ECONNREFUSED):
+                            raise
+                        # legitimate: the pending socket error was reported by this send (nothing is demanded about the wire)
+                        world.log("outcome", "tx", "oserr", len(sc.lib.sent_log) - before)
+                        world.probe("send-reported-pending-socket-error")
+                        continue
                     sc.check_send(p, d, sc.lib.sent_log[before:])
                     world.progress(1)
                 else:
